@@ -42,6 +42,7 @@ def pyt? : Sexp → Option PyT
   | .atom "bool" => some .bool
   | .atom "int" => some .int
   | .atom "float" => some .float
+  | .atom "decimal" => some .decimal
   | .atom "strGood" => some .strGood
   | .atom "strBad" => some .strBad
   | .atom "date" => some .date
@@ -49,7 +50,7 @@ def pyt? : Sexp → Option PyT
   | _ => none
 
 def pytName : PyT → String
-  | .bool => "bool" | .int => "int" | .float => "float" | .strGood => "strGood"
+  | .bool => "bool" | .int => "int" | .float => "float" | .decimal => "decimal" | .strGood => "strGood"
   | .strBad => "strBad" | .date => "date" | .datetime => "datetime"
 
 /-- member by its exact (lower-case) name, not by alias -/
